@@ -4,7 +4,7 @@
     WHICH candidates an atom produces (all occurrences / engine matches, each matching at its position)
     is the subject of C01; here it appears as the hypothesis on the candidate list. *)
 From ZV Require Import Lib.Base Lib.GoSearch Lib.RuneCount Model.Lines Model.Ranges
-  Proofs.LinesMatch Proofs.RangesGather Proofs.RangesOffsets Proofs.RangesFind Generated.RangesConsts.
+  Proofs.LinesMatch Proofs.LinesBreakCover Proofs.RangesGather Proofs.RangesOffsets Proofs.RangesFind Generated.RangesConsts.
 From ZV Require Lib.Utf8.
 From Coq Require Import Sorting.Sorted Sorting.Permutation.
 
@@ -62,17 +62,26 @@ Theorem C02_regexp_ranges_are_engine_matches : forall nl ms, ms <> [] -> engine_
 Proof. exact regexp_matches_kept. Qed.
 Print Assumptions C02_regexp_ranges_are_engine_matches.
 
-(** line mode: breakMatchesOnNewlines succeeds on in-bounds disjoint candidates; every piece is a
-    non-empty newline-free part of its candidate, order and disjointness are kept.
-    _partial: the converse inclusion (every non-newline byte of a candidate lies in a piece) is checked by
-    the Go oracle (regexp-cover in line mode) but not proved. *)
-Theorem C02_break_newlines_partial : forall c ms,
+(** line mode, FULL: breakMatchesOnNewlines succeeds on in-bounds disjoint candidates; every piece is a non-empty
+    newline-free part of its candidate (same class), order and disjointness are kept; and the pieces cover EXACTLY the
+    bytes of the candidates minus the newline bytes: a byte position lies in a piece iff it lies in a candidate and
+    does not hold '\n' ([covered l p] = some range of l contains p).  With C02_regexp_ranges_are_engine_matches:
+    in line mode the reported ranges cover exactly the bytes of the engine's non-empty matches, newlines excluded. *)
+Theorem C02_break_newlines : forall c ms,
   Forall (fun m => c_end m <= length c) ms -> disjoint_sorted ms ->
   exists b, break_matches c ms = Ok b /\
     Forall (fun x => piece_ok c x /\ exists m, In m ms /\ in_range (c_off m) (c_end m) x /\ c_fn x = c_fn m) b /\
-    disjoint_sorted b.
-Proof. exact break_matches_spec. Qed.
-Print Assumptions C02_break_newlines_partial.
+    disjoint_sorted b /\
+    (forall p, covered b p <-> (covered ms p /\ nth_error c p <> Some 10%N)).
+Proof. exact break_matches_full. Qed.
+Print Assumptions C02_break_newlines.
+
+(** the coverage clause alone needs no order/disjointness: any in-bounds candidate list *)
+Theorem C02_break_newlines_cover_any : forall c ms b,
+  Forall (fun m => c_end m <= length c) ms -> break_matches c ms = Ok b ->
+  forall p, covered b p <-> (covered ms p /\ nth_error c p <> Some 10%N).
+Proof. exact break_matches_cover. Qed.
+Print Assumptions C02_break_newlines_cover_any.
 
 (** RUNE -> BYTE TRANSLATION, FULL: for every corpus [pre ++ doc :: post] indexed by one builder (the builder's sampling
     in newSearchableString, one sample per runeOffsetFrequency runes of the corpus-global rune index, each document
@@ -162,6 +171,12 @@ Definition ex_cands : list cand :=
 Example ex_gather : gather 9 ex_cands =
   [ {| c_fn := true; c_off := 1; c_sz := 2 |}; {| c_fn := false; c_off := 2; c_sz := 5 |};
     {| c_fn := false; c_off := 7; c_sz := 1 |} ].
+Proof. reflexivity. Qed.
+
+(* "ab\n\ncd" with the candidate [1,6): pieces [1,2) and [4,6) — bytes 1,4,5 covered, the newlines 2,3 not *)
+Example ex_break :
+  break_matches [97; 98; 10; 10; 99; 100; 101]%N [ {| c_fn := false; c_off := 1; c_sz := 5 |} ]
+  = Ok [ {| c_fn := false; c_off := 1; c_sz := 1 |}; {| c_fn := false; c_off := 4; c_sz := 2 |} ].
 Proof. reflexivity. Qed.
 
 (* "aa" in "aaaaa": occurrences at 0,1,2,3; leftmost non-overlapping = 0,2 *)
